@@ -14,6 +14,8 @@ canon = c02.canon
 nontrivial = c02.nontrivial
 classify = c02.classify
 def model_skip(c):
+    if c.line.startswith("core "):
+        return c02.model_skip(c)
     return not c.line.startswith(("symtab ", "vmrun ", "resolve "))
 
 NAMES = ["x", "y"]
@@ -149,4 +151,10 @@ def cases(ctx):
             else:
                 steps.append(f"B{rng.randint(0, 5)},len")
         out.append(Case("symtab " + ";".join(steps), ("symtab",)))
+    # the run-time half of the last sentence (theorems C04Closure.closure_snapshot, captured_assignment_is_private): the layer
+    # with closures of lean/P2sh/Core/Fn — which values `Closure` copies and in which order, what `GetFree` / `SetFree` read and
+    # write, capture chains — functional compiler, machine and reference evaluation against the real compiler and VM (op `core`)
+    csrcs = [c02.core_clos_program(rng) for _ in range(ctx.scale(500, 30000))] + c02.CORE_CLOS_FIXED
+    cl = lang_lines(ctx, csrcs, op="core")
+    out += [Case(l, ("closure-core",), extra={"src": s}) for l, s in zip(cl, csrcs)]
     return out
